@@ -37,3 +37,35 @@ package diff
 //@ lemma groupsUniform(m mapListConnPairs)
 //@   requires keyedGroups(m)
 //@   ensures [C04] uniform: groupUniform(m)
+
+// ---------------------------------------------------------------------------------------------
+// Classification (C04): an entry's type is decided by which sides it has - removed iff only ref1, added iff only ref2,
+// changed / unchanged iff both (by equality of the two connection sets)
+// ---------------------------------------------------------------------------------------------
+
+//@ pred diffMapOK(d diffMap) = d != nil && (forall k string :: {k in d} k in d ==> d[k] != nil)
+
+//@ func (*connsPair).updateConn
+//@   requires c != nil
+//@   modifies c.firstConn, c.secondConn
+//@   ensures [C04] set: (isFirst ==> (c.firstConn == conn && c.secondConn == old(c.secondConn))) && (!isFirst ==> (c.secondConn == conn && c.firstConn == old(c.firstConn)))
+
+//@ func (diffMap).update
+//@   requires diffMapOK(d)
+//@   modifies *
+//@   ensures [C04] ok: diffMapOK(d) && key in d
+//@   ensures [C04] side: (isFirst ==> d[key].firstConn == c) && (!isFirst ==> d[key].secondConn == c)
+//@   ensures [C04] other: old(key in d) ==> (d[key] == old(d[key]) && (isFirst ==> d[key].secondConn == old(d[key].secondConn)) && (!isFirst ==> d[key].firstConn == old(d[key].firstConn)))
+//@   ensures [C04] fresh: !old(key in d) ==> (fresh(d[key]) && (isFirst ==> d[key].secondConn == nil) && (!isFirst ==> d[key].firstConn == nil))
+//@   ensures [C04] others: forall k string :: {k in d} {old(k in d)} k != key ==> ((k in d) == old(k in d) && (k in d ==> d[k] == old(d[k])))
+
+// the new/lost-workload flags (C04): raised iff the end point is a workload (not an IP block, not the ingress controller)
+// whose printed name is absent from the other set's peers; never cleared here
+//@ fun otherSetLacks(p connlist.Peer, peersSet map[string]bool) bool = !clIsIP(p) && clName(p) != "ingress-controller"
+//@     && !(peersSet != nil && clStr(p) in peersSet && peersSet[clStr(p)])
+//@ func (*connsPair).updateNewOrLostFields
+//@   requires c != nil && (isFirst ==> (c.firstConn != nil && p2pOK(c.firstConn))) && (!isFirst ==> (c.secondConn != nil && p2pOK(c.secondConn)))
+//@   modifies *
+//@   ensures [C04] src: c.newOrLostSrc == (old(c.newOrLostSrc) || otherSetLacks(p2pSrc(if isFirst then old(c.firstConn) else old(c.secondConn)), peersSet))
+//@   ensures [C04] dst: c.newOrLostDst == (old(c.newOrLostDst) || otherSetLacks(p2pDst(if isFirst then old(c.firstConn) else old(c.secondConn)), peersSet))
+//@   ensures [C04] sides: c.firstConn == old(c.firstConn) && c.secondConn == old(c.secondConn) && c.diffType == old(c.diffType)
